@@ -9,7 +9,8 @@ LEVEL = ("Mechanism level: JSON objects of the interpreter's value type are BTre
          "does not depend on insertion order; the CID is BLAKE3-256 over serde_json::to_writer of the value (raw bytes for raw "
          "values), multihash Blake3_256, CIDv1 with the JSON codec 0x0200; both verifiers reject other codecs, whitelist "
          "{Sha2_256, Blake3_256}, and accept iff the freshly computed digest equals the WHOLE multihash digest (no slicing or "
-         "prefix comparison). Canonicity of serde_json's number formatting and collision resistance are not decided.")
+         "prefix comparison). Canonicity of serde_json's number formatting and collision resistance are not decided."
+         " Added: the Serialize table of JValue with numbers delegated to Number::serialize (the bytes that are hashed).")
 
 SLICERS = ("::starts_with", "::ends_with", "::get", "::get_mut", "::truncate", "::split_at", "::take", "::first", "::last", "::chunks", "::windows",
            "::zip", "::contains", "::len", "::resize", "::split_off")
